@@ -1,6 +1,10 @@
 package main
 
-import "fmt"
+import (
+	"fmt"
+
+	"golang.org/x/tools/go/packages"
+)
 
 func init() { props["C03"] = checkC03 }
 
@@ -31,6 +35,14 @@ func checkC03(c *Ctx) {
 	nud, _ := c.useAfterDel("USE-AFTER-DEL", c.AllFuncs("tree"), "every branch links a parent to a child (both ends set)")
 	c.Extra["delnode_sites"] = nud
 	c.Floor("USE-AFTER-DEL", 5)
+	c.Decides("INDEX-OWNER: in package tree a position obtained from A.NodeIndex(B) / A.EdgeIndex(e) indexes A's own neigh/br slices only")
+	nio, _ := c.indexOwner("INDEX-OWNER", c.AllFuncs("tree"), "symmetric adjacency")
+	c.Extra["index_uses"] = nio
+	c.Floor("INDEX-OWNER", 10)
+	c.Decides("SHADOW-RESULT (shared with C16): in package tree no inner `err :=` hides the error variable a function returns at its end while its failure branch neither returns, stores into the outer variable nor stops (a removal that failed half-way would be reported as a success on a torn tree)")
+	if p := c.Pkg("tree"); p != nil {
+		c.shadowResult("SHADOW-RESULT", []*packages.Package{p}, "every edit either succeeds or reports an error")
+	}
 	c.Decides("SNAPSHOT: a loop of package tree over a snapshot (make+copy) of a node's neigh or br reads the node's other parallel slice at the loop index only through a snapshot as well")
 	ns, _ := c.snapshotParallel("SNAPSHOT", c.AllFuncs("tree"))
 	c.Extra["snapshot_loops"] = ns
